@@ -29,7 +29,7 @@ use crate::{
     eager_reader_artifact::{
         generate_eager_reader_artifacts, generate_eager_reader_condition_artifact,
         generate_eager_reader_output_type_artifact, generate_eager_reader_param_type_artifact,
-        generate_link_output_type_artifact,
+        generate_eager_reader_parameters_type_artifact, generate_link_output_type_artifact,
     },
     entrypoint_artifact::{
         generate_entrypoint_artifacts,
@@ -385,6 +385,10 @@ fn get_artifact_path_and_content_impl<TCompilationProfile: CompilationProfile>(
             db,
             user_written_client_type.dereference(),
             config.options.include_file_extensions_in_import_statements,
+        ));
+        path_and_contents.extend(generate_eager_reader_parameters_type_artifact(
+            db,
+            user_written_client_type.dereference(),
         ));
 
         match encountered_client_type_map.get(&client_type_name.inner()) {
